@@ -632,7 +632,7 @@ def c10_dates(k: int, lit: bool) -> bool:
     else:
         q = "query Q($v: %s) { %s(v: $v) }" % (TNAME[f], f)
         ok, r = safe(lambda: env.run(ENG_DT.execute(q, variables={"v": val})))
-    observe(q, val, r, list(SEEN))
+    observe(q, val, r, len(SEEN))        # the delivered values are datetime objects whose repr differs under tracing
     if not ok:
         return verdict(False)
     if is_good:
